@@ -171,7 +171,13 @@ def newtonStep (sqrt : K → K) (sh : Shape K) (P1 S : V3 K) (sj : K) : V3 K × 
   let Fpj := V3.dot S r
   (Pj, r, sj - Fj / Fpj)
 
-/-- Newton iteration with the code's stopping rule `|s_{j+1} − s_j| < eps`; returns the point and
+/-- `max(1, |x|, |y|, |z|)`: the convergence tolerance is relative to the size of the point beyond one unit -/
+def newtonScale (lt : K → K → Bool) (P : V3 K) : K :=
+  let ab := fun (v : K) => if lt v 0 then -v else v
+  let mx := fun (a b : K) => if lt a b then b else a
+  mx 1 (mx (mx (ab P.x) (ab P.y)) (ab P.z))
+
+/-- Newton iteration with the code's stopping rule `|s_{j+1} − s_j| < eps · max(1, |P_j|_∞)`; returns the point and
 normal of the iteration that converged (`none` when `fuel` runs out: the code writes NaN) -/
 def newton (sqrt : K → K) (lt : K → K → Bool) (sh : Shape K) (P1 S : V3 K) (eps : K) :
     Nat → K → Option (V3 K × V3 K)
@@ -180,7 +186,7 @@ def newton (sqrt : K → K) (lt : K → K → Bool) (sh : Shape K) (P1 S : V3 K)
       let (Pj, r, sj1) := newtonStep sqrt sh P1 S sj
       let d := sj1 - sj
       let ad := if lt d 0 then -d else d
-      if lt ad eps then some (Pj, r) else newton sqrt lt sh P1 S eps fuel sj1
+      if lt ad (eps * newtonScale lt Pj) then some (Pj, r) else newton sqrt lt sh P1 S eps fuel sj1
 
 def intersect (sqrt : K → K) (lt : K → K → Bool) (sh : Shape K) (P0 S : V3 K) (eps : K) (maxiter : Nat) :
     Option (V3 K × V3 K) :=
